@@ -198,6 +198,32 @@ class Tally:
         return self
 
 
+def generic_state(obj, depth=3, _seen=None):
+    """
+    Name-agnostic canonical form of an object's private state: instance attributes walked to a depth, arrays and
+    containers digested.  Used as the fall-back state abstraction when a check cannot find the private fields it
+    knows by name (a refactor renamed them): finer than necessary (fewer states merge), never coarser.
+    """
+    import numpy as _np
+
+    _seen = set() if _seen is None else _seen
+    if id(obj) in _seen:
+        return "<cycle>"
+    _seen.add(id(obj))
+    if isinstance(obj, _np.ndarray):
+        return ("nd", obj.shape, str(obj.dtype), short_hash(obj.tobytes()))
+    if isinstance(obj, (str, bytes, int, float, bool, type(None))):
+        return obj if not isinstance(obj, float) else repr(obj)
+    if isinstance(obj, dict):
+        return ("dict", tuple(sorted(((repr(k), generic_state(v, depth - 1, _seen)) for k, v in list(obj.items())), key=repr))) if depth > 0 else ("dict", len(obj))
+    if isinstance(obj, (list, tuple, set, frozenset)):
+        return (type(obj).__name__, tuple(generic_state(v, depth - 1, _seen) for v in list(obj)[:64])) if depth > 0 else (type(obj).__name__, len(obj))
+    d = getattr(obj, "__dict__", None)
+    if d is None or depth <= 0:
+        return type(obj).__name__
+    return (type(obj).__name__, tuple((k, generic_state(v, depth - 1, _seen)) for k, v in sorted(d.items())))
+
+
 def short_hash(obj):
     return hashlib.blake2b(repr(obj).encode(), digest_size=8).digest()
 
@@ -242,7 +268,7 @@ class Run:
     # -- finishing -----------------------------------------------------------
 
     def _write_replay(self, key, case, detail):
-        d = os.path.join(VERIF, "replays", self.pid)
+        d = os.path.join(os.environ.get("VERIF_OUT", VERIF), "replays", self.pid)
         os.makedirs(d, exist_ok=True)
         path = os.path.join(d, slug(key) + ".json")
         with open(path, "w") as f:
@@ -331,7 +357,9 @@ class Run:
             "wall_s": round(time.time() - self.t0, 2),
             "violations": len(new),
         }
-        path = os.path.join(VERIF, "evidence", f"{self.pid}.json")
+        # VERIF_OUT redirects evidence and replays of runs against a tree other than /repo (seeded-change runs)
+        path = os.path.join(os.environ.get("VERIF_OUT", VERIF), "evidence", f"{self.pid}.json")
+        os.makedirs(os.path.dirname(path), exist_ok=True)
         os.makedirs(os.path.dirname(path), exist_ok=True)
         try:
             import jsonschema
